@@ -178,21 +178,58 @@ def run(ctx):
         elif k < 0.5:
             s = [ctx.rng.choice(cfg.terms) for _ in range(ctx.rng.randint(0, 8))]
         seqs.append(s)
+    # constructed sentences far beyond what random derivations reach: deep bracket nesting (every open bracket stays on the parse stack),
+    # long lists; each with a near miss (one closing bracket / separator removed). Their membership is known by construction.
+    known = {}
+    OPEN = {"(": ")", "[": "]", "{": "}"}
+    rng = ctx.rng
+    for depth in ([150, 1100, 3000] if not thorough else [150, 1100, 3000, 10000, 30000]):
+        br = [rng.choice("([{") for _ in range(depth)]
+        body = list(br) + ["char_lit"] + [OPEN[b] for b in reversed(br)]
+        deep = ["tokId", ":"] + body + [";"]
+        miss = list(deep)
+        del miss[len(deep) - 2 - rng.randrange(depth)]
+        for q, v in ((deep, True), (miss, False)):
+            assert all(x in tidx for x in q), [x for x in q if x not in tidx][:3]
+            if True:
+                seqs.append(q)
+                known[len(seqs) - 1] = v
+    for ln in ([2500] if not thorough else [2500, 20000]):
+        longlex = []
+        for i in range(ln // 5):
+            longlex += [rng.choice(["tokId", "regDefId", "ignoredTokId"]), ":", "char_lit", rng.choice(["|", "-", "char_lit"]), "char_lit", ";"]
+        longsyn = []
+        for i in range(ln // 6):
+            longsyn += ["prodId", ":"] + [rng.choice(["prodId", "tokId", "string_lit"]) for _ in range(rng.randint(1, 4))] + ["|", "tokId", ";"]
+        for q in (longlex, longlex + longsyn, longsyn):
+            assert all(x in tidx for x in q), [x for x in q if x not in tidx][:3]
+            if True:
+                seqs.append(q)
+                known[len(seqs) - 1] = True
+                m2 = list(q)
+                del m2[max(i for i, x in enumerate(m2) if x == ";")]
+                seqs.append(m2)
+                known[len(seqs) - 1] = False
     ftext = "".join(" ".join(str(tidx[t] - 1) for t in s) + "\n" for s in seqs)
     mtext = "".join(" ".join(str(tidx[t]) for t in s) + "\n" for s in seqs)
     go = vlib.run_lines([ctx.verifdump, "fparse"], ftext)
-    mo = [model_line(x) for x in vlib.run_lines([ctx.modelrun, "parse", tf, "20000"], mtext)]
+    mo = [model_line(x) for x in vlib.run_lines([ctx.modelrun, "parse", tf, "400000", "brief"], mtext, timeout=3600)]
     reported = 0
     disagreements = 0
     hist = collections.Counter()
     distinct = set()
-    for s, gl, ml in zip(seqs, go, mo):
-        sent = ea.accepts(s)
+    for si, (s, gl, ml) in enumerate(zip(seqs, go, mo)):
+        sent = known[si] if si in known else ea.accepts(s)
         acc = gl.startswith("ACC")
         hist[("sentence" if sent else "non-sentence") + "/" + gl.split(" ")[0]] += 1
         if len(s) >= 6:
             distinct.add(tuple(s))
-        if (acc != sent or gl.startswith("PANIC")) and reported < 3:
+        if (acc != sent or gl.startswith("PANIC")) and reported < 3 and si in known:
+            ctx.violation({"kind": "property-oracle-on-implementation", "tokens": "constructed: %d tokens, starts %s" % (len(s), " ".join(s[:12])),
+                           "front_end_parse": gl[:300], "is_sentence_of_spec(by construction)": sent,
+                           "how_to_replay": "tokens (front-end type numbers): " + " ".join(str(tidx[x] - 1) for x in s)[:100000]})
+            reported += 1
+        elif (acc != sent or gl.startswith("PANIC")) and reported < 3:
             def bad(t):
                 o = vlib.run_lines([ctx.verifdump, "fparse"], " ".join(str(tidx[x] - 1) for x in t) + "\n")[0]
                 return o.startswith("ACC") != ea.accepts(t) or o.startswith("PANIC")
@@ -217,7 +254,8 @@ def run(ctx):
     ctx.write_evidence("proof", {
         "evaluations": len(seqs), "distinct_nontrivial": len(distinct),
         "rule": "token sequences over the front end's alphabet: random derivations of the spec grammar (depth budget 4-20), 45% with "
-                "1-3 token-level edits, 5% random; non-trivial = at least 6 tokens; distinct sequences",
+                "1-3 token-level edits, 5% random; plus constructed sentences and near misses: bracket nesting 150 / 1100 / 3000 deep (thorough: "
+                "up to 30000), lists of 2500 tokens (thorough: 20000); non-trivial = at least 6 tokens; distinct sequences",
         "samples": [{"tokens": seqs[i], "front_end": go[i]} for i in range(3)],
         "programs": 1, "verdict_histogram": dict(hist), "states": len(tables["states"]), "productions": len(spec),
         "traces_validated_against_impl": len(seqs), "disagreements": disagreements,
